@@ -148,6 +148,14 @@ let run_case (c : st) : string =
           else if Float.abs (m -. c.area) <= 1e-12 *. (1. +. Float.abs c.area) then upd 1
           else note (Printf.sprintf "molecule area: model %h impl %h" m c.area)
         end);
+       (* the enclosing radius of the shape (C01): Shape::enclosing_radius against the model's shape_radius *)
+       (if (c.kind = 'P' && c.segs <> []) || (c.kind = 'M' && c.discs <> []) then begin
+          let shape = if c.kind = 'P' then Poly c.segs else Mol c.discs in
+          let m = c2f (shape_radius numF (f2c (-. Float.max_float)) shape) in
+          if same m c.radius || (Float.is_nan m && Float.is_nan c.radius) then ()
+          else if Float.abs (m -. c.radius) <= 1e-12 *. (1. +. Float.abs c.radius) then upd 1
+          else note (Printf.sprintf "enclosing radius: model %h impl %h" m c.radius)
+        end);
        (match c.carea with
         | Some a ->
             let m = c2f (cell_area numF cell) in
